@@ -166,6 +166,10 @@ def progressOp (x : Gen) (st : St) : Option SOp × Gen :=
   let nxt := st.sys + 1
   if nxt > 9 then (none, x) else
   let lag := (mapI (fun s (sb : Sub) => (s, sb)) st.subs).filter (fun (_, sb) => sb.cur < nxt)
+  let (ah, x) := x.below 8
+  let (as, x) := x.below st.subs.length
+  -- now and then a subsystem runs ahead of the system by more than one stage
+  if ah == 0 && (st.subs.getD as {}).cur < 9 then (some (.advSub as ((st.subs.getD as {}).cur + 1)), x) else
   if lag.isEmpty then (some (.advSys nxt), x) else
   let (i, x) := x.below lag.length
   match lag[i]? with
@@ -296,7 +300,18 @@ def propose (x : Gen) (w : World) : Op × Gen :=
     let (a, x) := x.below 2
     let g := if lo == 0 then g + 1 else 4 + g % 6       -- mostly run-time stages
     (.on k (if a == 0 then .invalAll g else .invalCache g), x)
-  else if r < 89 then (.on k .autoUpdate, x)
+  else if r < 89 then
+    -- write / mark an update value first when there is an auto-update variable whose update entry can be marked
+    let autos := st.allDVKeys.filterMap (fun dk => match st.dv? dk with
+      | some d => (match d.auto with | some cx => some (dk, cx) | none => none) | none => none)
+    let ready := autos.filter (fun (dk, cx) => st.isRealized (dk.1, cx))
+    let (a, x) := x.below 3
+    if ready.isEmpty && !autos.isEmpty && a != 0 then
+      let (i, x) := x.below autos.length
+      let (dk, cx) := autos.getD i ((0, 0), 0)
+      let (v, x) := x.below 50
+      (if a == 1 then .on k (.setCE dk.1 cx (Int.ofNat v + 300)) else .on k (.markDVUpd dk.1 dk.2), x)
+    else (.on k .autoUpdate, x)
   else if r < 95 then       -- several State objects
     let (a, x) := x.below 7
     let (j, x) := x.below (max 1 w.sts.length)
@@ -398,6 +413,17 @@ def main (args : List String) : IO UInt32 := do
       let jj := if i == 0 then 0 else j
       let m := if i < 4 then jj else mm
       let ok ← runOps out (probeOps dep jj m) full
+      if !ok then return 3
+    -- directed histories behind the findings about early marks and un-notified prerequisites
+    let adv (from_ to : Nat) : List Op :=
+      (List.range (to - from_)).flatMap (fun i => [.on 0 (.advSub 0 (from_ + i + 1)), .on 0 (.advSys (from_ + i + 1))])
+    let early : List Op := [.on 0 (.allocCE 0 5 10 3)] ++ adv 0 4 ++ [.on 0 (.mark 0 0), .on 0 (.updQ none)] ++ adv 4 5
+    let swap : List Op := [.on 0 (.allocAutoDV 0 7 1 4), .on 0 (.allocCEpre 0 4 10 false false false [(0, 0)] [] 10)] ++ adv 0 4 ++
+      [.on 0 (.setCE 0 0 2), .on 0 (.markDVUpd 0 0), .on 0 (.mark 0 1), .on 0 .autoUpdate]
+    let upstream : List Op := [.on 0 (.allocCE 0 4 10 5), .on 0 (.allocCEpre 0 4 10 false false false [] [(0, 0)] 50)] ++ adv 0 4 ++
+      [.on 0 (.mark 0 0), .on 0 (.mark 0 1), .on 0 (.setCE 0 0 7)]
+    for ops in [early, swap, upstream] do
+      let ok ← runOps out ops full
       if !ok then return 3
     for i in [0:n] do
       genSeq out seed i 70 full
